@@ -360,6 +360,14 @@ class IntervalLt(Contract):
                 if wrong:
                     ok = False
                     msg += "; " + "; ".join(wrong)
+        if ok and a == b:
+            # C08: equal delays are interchangeable -- the same arrival time for every departure time
+            for tt in (tuple([0] * a.pre_length), tuple(range(7, 7 + a.pre_length)), tuple(range(3, 3 + a.pre_length))[::-1]):
+                t = TieredTime(*tt)
+                if (t + a) != (t + b):
+                    ok = False
+                    msg += f"; {a!r} == {b!r} but {t!r}+a = {t + a!r} and {t!r}+b = {t + b!r}"
+                    break
         if ok and r and not k_mixed(a, b):
             ts = [tuple(m["t"])] if "t" in m and len(m["t"]) == a.pre_length and all(x >= 0 for x in m["t"]) else []
             ts += [tuple([0] * a.pre_length), tuple(range(7, 7 + a.pre_length))]
